@@ -288,8 +288,11 @@ fn c06_model(rng: &mut Rng, i: u64) -> (Sprite, PaletteProgram, &'static str) {
             cfg.max_frames = 6;
             cfg.extreme_cels = true;
             cfg.big = true;
+            // sixth round: a link chunk's own x / y / opacity differ from its target's - the linked cel still renders
+            // exactly like the cel it links to
+            cfg.link_junk = i % 2 == 0;
             let (sp, pp) = gen::gen_sprite(rng, &cfg);
-            (sp, pp, "random")
+            (sp, pp, if cfg.link_junk { "random-link-own-fields" } else { "random" })
         }
     }
 }
